@@ -125,7 +125,7 @@ def run(ctx):
         nprog = 1500 if thorough else 250
         for i in range(nprog):
             lang = rng.choice(["C", "C", "CPP", "JAVA"])
-            g = gen.Gen(rng, lang=lang, depth=rng.choice([2, 3, 4]), comments=rng.random() < 0.5, preproc=False, stats=ctx.hist)
+            g = gen.Gen(rng, lang=lang, depth=rng.choice([2, 3, 4]), comments=rng.random() < 0.5, preproc=False, stats=ctx.hist, nested_nobrace=rng.random() < 0.5)
             lines = g.program()
             tk, idx = toks_of(lines)
             opts = {"indent_columns": rng.choice([1, 2, 3, 4, 4, 8, 8, 16, rng.randrange(1, 17)]), "indent_with_tabs": rng.choice([0, 1, 2]),
